@@ -209,6 +209,12 @@ func runC36(c *eng.Ctx) {
 					}
 					return !p.new, true
 				}
+				if b, ok := v.(*ssa.BinOp); ok && (b.Op == token.EQL || b.Op == token.NEQ) && eng.IsField(b.X, "EventNotification.NewParentPath") {
+					if str, isS := eng.ConstString(b.Y); isS && str == "" {
+						// an event with a new entry names its new parent
+						return p.new == (b.Op == token.NEQ), true
+					}
+				}
 				if inside("dir")(v) {
 					return true, true // the event's directory is inside (the outside case is the early skip)
 				}
